@@ -127,7 +127,13 @@ func (s *Scheduler) runStage(stage *Stage) error {
 		return s.Schedule(stage.Pipeline)
 	}
 
-	t := stage.Task
+	// stage's overrides are applied to the stage's own copy of the task,
+	// the task itself may be shared with other stages, pipelines or watchers
+	t := *stage.Task
+	if stage.Dir != "" {
+		t.Dir = stage.Dir
+	}
+
 	if stage.Env != nil {
 		if t.Env == nil {
 			t.Env = stage.Env
@@ -140,9 +146,11 @@ func (s *Scheduler) runStage(stage *Stage) error {
 		if t.Variables == nil {
 			t.Variables = stage.Variables
 		} else {
-			t.Variables = t.Env.Merge(stage.Variables)
+			t.Variables = t.Variables.Merge(stage.Variables)
 		}
 	}
+
+	stage.Task = &t
 
 	return s.taskRunner.Run(stage.Task)
 }
